@@ -986,7 +986,14 @@ free_task(_task_t t)
 		free(deconst(t->dflt_cred.sh));
 	}
 	free_echs_task(t->t);
+	t->t = NULL;
+	t->dflt_cred.wd = t->dflt_cred.sh = NULL;
 
+	if (UNLIKELY(t->nsim)) {
+		/* there's children out there whose watchers point to us,
+		 * the last one of them will hand us to the free list */
+		return;
+	}
 	t->next = free_tasks;
 	free_tasks = t;
 	nfree_tasks++;
@@ -2205,7 +2212,15 @@ chld_cb(EV_P_ ev_child *c, int UNUSED(revents))
 	c->rpid = c->pid = 0;
 	t->nsim--;
 
-	if (UNLIKELY(t->w.reschedule_cb == NULL)) {
+	if (UNLIKELY(t->t == NULL)) {
+		/* the task has been cancelled or has finished meanwhile,
+		 * the last child turns off the light */
+		if (!t->nsim) {
+			t->next = free_tasks;
+			free_tasks = t;
+			nfree_tasks++;
+		}
+	} else if (UNLIKELY(t->w.reschedule_cb == NULL && !t->nsim)) {
 		/* we promised taskB_cb to kill this guy */
 		unsched(EV_A_ &t->w, 0);
 	}
